@@ -1,5 +1,6 @@
 #include "photospline/cinter/splinetable.h"
 #include "photospline/splinetable.h"
+#include <limits>
 
 #ifdef __cplusplus
 extern "C" {
@@ -188,7 +189,15 @@ double ndsplineeval(const struct splinetable* table, const double* x,
 void ndsplineeval_gradient(const struct splinetable* table, const double* x,
                            const int* centers, double* evaluates){
 	const auto& real_table=*static_cast<const photospline::splinetable<>*>(table->data);
-	real_table.ndsplineeval_gradient(x,centers,evaluates);
+	try{
+		real_table.ndsplineeval_gradient(x,centers,evaluates);
+	}catch(...){
+		//This function has no way to report failure (e.g. a table with too many
+		//dimensions for the SIMD layout) and must not let an exception escape
+		//into C; mark all ndim+1 results as invalid instead.
+		for(uint32_t i=0; i<=real_table.get_ndim(); i++)
+			evaluates[i]=std::numeric_limits<double>::quiet_NaN();
+	}
 }
 	
 double ndsplineeval_deriv(const struct splinetable* table, const double* x,
